@@ -70,6 +70,12 @@ Proof.
     assert (Hq : u_q2 c = u_q1 c).
     { destruct (u_q1 c), (u_q2 c); try discriminate; try reflexivity. apply Nat.eqb_eq in S2. congruence. }
     rewrite roundtrip_exact by congruence. apply uobs_eqb_refl.
-  - unfold after_load, before_save, observe. cbn [o_len o_items].
-    rewrite Nat.eqb_refl, zl_eqb_refl, andb_true_r, andb_true_r. apply Nat.leb_le. apply loaded_fits.
+  - unfold after_load, before_save, observe. cbn [o_len o_items o_counts].
+    rewrite Nat.eqb_refl, zl_eqb_refl. rewrite !andb_true_r.
+    apply andb_true_iff. split; [apply Nat.leb_le; apply loaded_fits|].
+    replace (map (count_since (loaded_tss c (saved_tss c tss))) probes)
+      with (map (fun n => match u_q2 c with Some q => Nat.min q n | None => n end) (map (count_since (saved_tss c tss)) probes));
+      [apply nl_eqb_refl|].
+    rewrite map_map. apply map_ext. intros p. unfold loaded_tss, load_tss, lastn_opt.
+    destruct (u_q2 c) as [q|]; [symmetry; apply count_after_load|reflexivity].
 Qed.
